@@ -319,6 +319,7 @@ def check_main(pid, tier, seed, replay=None):
         "counters": dict(sorted(agg["counters"].items())),
         "maxima": agg["maxima"],
         "shards": len(specs),
+        "slowest_shards_s": sorted((round(o.get("_wall", 0), 1) for o in outs), reverse=True)[:5],
         "required_counters": need,
         "known_findings_seen": {k: agg["vkeys"].get(k, 0) for k in seen_known},
         "violation_keys": {k: n for k, n in agg["vkeys"].items() if k not in open_keys},
